@@ -223,6 +223,57 @@ def _check_multiply(rep, name, modname):
     rp = {"kind": "c07_multiply", "args": {"module": modname}}
     real = m.multiply
     seen = {"n": 0}
+    from .c08 import _has_while, _pow_loop_step
+
+    def dbl(pt):
+        return MPt(_as_k(pt) * 2)
+
+    def add(a, b):
+        return MPt(_as_k(a) + _as_k(b))
+
+    def is_pt(v):
+        try:
+            _as_k(v)
+            return True
+        except core.Unsupported:
+            return False
+    if _has_while(real, also_for=True):
+        # ---- iterative form: every n < 2^K unrolled (each n its own path) + loop-cut invariant step acc + pw*e = n for all n
+        K = 6
+
+        def run_it(ctx):
+            n = SymZ.var("n", 0, (1 << K) - 1)
+            with world.patched(m, double=dbl, add=add):
+                r = real(MPt(1), n)
+            return n, r
+
+        def on_it(pth):
+            rep.paths += 1
+            mdl = lambda mm: {"kind": "c07_multiply", "args": {"module": modname, "n": str(mm.eval(z3.Int("n"), model_completion=True)) if mm is not None else "5"}}
+            if pth.kind != "ret":
+                g, mm = pth.ctx.satisfiable()
+                rep.fail("%s.multiply raised %r for some n < 2^%d" % (name, pth.value, K), mdl(mm))
+                return
+            n, r = pth.value
+            g, mm = pth.ctx.prove(_as_k(r).t == n.t)
+            require(rep, g, "%s.multiply(P, n) = n*P (iterative form unrolled, n < 2^%d)" % (name, K), pth.decisions, mdl(mm))
+        core.explore(run_it, on_path=on_it, ctx_kwargs=dict(max_decisions=64))
+        rep.bound("%s.multiply: loop unrolled for all n < 2^%d (every n is its own path)" % (name, K))
+        # ground instances on the exponent model (no quantifier): large scalars of the property's list
+        with core.Ctx() as gctx:
+            for n0 in (2 ** 255, 2 ** 256, 2 ** 256 + 1, m.curve_order - 1, m.curve_order, m.curve_order + 1, 2 * m.field_modulus - m.curve_order, 2 ** 300 + 12345, 2 ** 640 - 1):
+                try:
+                    with world.patched(m, double=dbl, add=add):
+                        r0 = real(MPt(1), n0)
+                    k0 = _as_k(r0)
+                    ok0 = gctx.prove(k0.t == z3.IntVal(n0))[0]
+                except core.Unsupported as e_:
+                    rep.unknown("%s.multiply on the model for n = %d bits: %s" % (name, n0.bit_length(), e_))
+                    continue
+                require(rep, ok0, "%s.multiply(P, n) = n*P on the exponent model for the %d-bit scalar of the property's list (ground)" % (name, n0.bit_length()), None,
+                        {"kind": "c07_multiply", "args": {"module": modname, "n": str(n0)}})
+        _pow_loop_step(rep, "%s.multiply" % name, real, rp, is_elt=is_pt, mk=lambda c_: MPt(c_), expo=_as_k, stubs=dict(double=dbl, add=add))
+        return
 
     def run(ctx):
         n = SymZ.var("n", 0, None)
